@@ -18,13 +18,38 @@ class StmtMixin:
                 if sig is not None:
                     nxt.append((s, sig))
                 else:
-                    nxt.extend(self.exec(s, stmt))
+                    if getattr(self, "partial_ok", False) and self.call_depth == 0:
+                        nobl = len(self.obls)
+                        try:
+                            nxt.extend(self.exec(s.fork(), stmt))
+                        except OutOfSubset as e:
+                            # this path leaves the subset here: it ends as an undecided outcome; other paths go on.
+                            # obligations emitted while executing the statement are kept (they are about what was executed)
+                            line = getattr(e.node, "lineno", getattr(stmt, "lineno", 0)) if e.node is not None else getattr(stmt, "lineno", 0)
+                            nxt.append((s, ("oos", f"{e} (L{line})")))
+                    else:
+                        nxt.extend(self.exec(s, stmt))
             paths = nxt
             if len(paths) > self.max_paths:
                 raise OutOfSubset(f"path explosion (> {self.max_paths})", stmt)
         return paths
 
     def exec(self, st, n):
+        if self.call_depth == 0 and self.contract.ghost.get("reach"):
+            try:
+                src = ast.unparse(n)
+            except Exception:
+                src = ""
+            for pat, cond in self.contract.ghost["reach"]:
+                if src.startswith(pat):
+                    sp = SpecEval(self, {**self.entry_env_for_reach, **{k: v for k, v in st.env.items() if k not in self.entry_env_for_reach}},
+                                  old_env=self.entry_env_for_reach, glob=self.cur_glob)
+                    saved = self.spec_state
+                    self.spec_state = st
+                    try:
+                        self.obl("reach", n, st, sp.compile_bool(cond), detail=f"whenever `{pat}...` is reached: {cond}")
+                    finally:
+                        self.spec_state = saved
         m = getattr(self, "s_" + type(n).__name__, None)
         if m is None:
             raise OutOfSubset(f"statement {type(n).__name__}", n)
@@ -269,6 +294,10 @@ class StmtMixin:
             res = self.raising(st, None, [(IndexError, Not(f"(and (<= 0 {i}) (< {i} (seq.len {sq})))"))], node)
             out = [(s_, ("raise", r_)) for s_, r_ in res[:-1]]
             return out + self.store_back(res[-1][0], base_node, nv, node)
+        if lb.kind is None and lb.sort == "V" and (li.sort == "S" or li.kind == "str"):
+            self.obl("kind", node, st, f"(k_dict {lb.t})", detail=f"{ast.unparse(base_node)} is a dict at the item assignment")
+            st.assume(f"(k_dict {lb.t})")
+            lb = Val(lb.t, "V", lb.fresh, "dict", None, lb.origin)
         if lb.kind != "dict":
             raise OutOfSubset(f"item assignment on {lb.kind}", node)
         self.frame_write(st, lb, lb.origin or ast.unparse(base_node), node)
